@@ -6,6 +6,7 @@ import (
 	"math"
 	"strconv"
 	"strings"
+	"time"
 
 	"golang.org/x/tools/go/ssa"
 )
@@ -21,7 +22,7 @@ func isStdPath(p string) bool {
 }
 
 var stdInitAllow = map[string]bool{
-	"errors": true, "io": true, "bytes": true, "strings": true, "sort": true, "math": true, "strconv": true,
+	"io": true, "bytes": true, "strings": true, "sort": true, "math": true, "strconv": true,
 	"container/list": true, "container/heap": true, "unicode/utf8": true, "math/bits": true,
 	"slices": true, "maps": true, "cmp": true,
 }
@@ -1206,7 +1207,13 @@ func (ex *Exec) doAssert(c *Term, label string, fr *frame) {
 		return
 	}
 	st.Queries++
+	tq := time.Now()
 	r := ex.checkPC(ex.tc.Not(c))
+	dq := time.Since(tq).Milliseconds()
+	st.Ms += dq
+	if dq > st.MaxMs {
+		st.MaxMs = dq
+	}
 	switch r {
 	case Unsat:
 		st.Discharged++
